@@ -805,6 +805,13 @@ public:
 
 private:
     /**
+     * @brief Detect the format and load the file (loadMIDI() cleans up after it on failure)
+     * @param fr Context with opened file
+     * @return true on successful load
+     */
+    bool loadMIDIFormat(FileAndMemReader &fr);
+
+    /**
      * @brief Load file as Id-software-Music-File (Wolfenstein)
      * @param fr Context with opened file
      * @return true on successful load
